@@ -56,7 +56,7 @@ FUNCTION_COUNTERS = ["fn_PBKDF1", "fn_PBKDF2_fast", "fn_PBKDF2_generic_hash", "f
 DECIDING = FUNCTION_COUNTERS + ["pbkdf2_fast_path", "pbkdf2_generic_path", "multikey_HKDF", "multikey_scrypt", "multikey_SP800_108",
                                 "refusals_seen", "refusal_HKDF", "refusal_scrypt", "refusal_bcrypt", "refusal_PBKDF1",
                                 "bcrypt_check_accepted", "bcrypt_check_rejected", "oracle_pair_agreed",
-                                "bcrypt_pw71", "bcrypt_pw72", "hkdf_at_limit", "s2v_zero_components", "concurrent_kdf_calls", "s2v_reuse_histories", "decoy_calls"]
+                                "bcrypt_pw71", "bcrypt_pw72", "hkdf_at_limit", "s2v_zero_components", "concurrent_kdf_calls", "s2v_reuse_histories", "decoy_calls", "bcrypt_reused_buffer"]
 
 
 # =============================================================================================
@@ -843,6 +843,16 @@ def bcrypt_case(ctx, env, pw, cost, salt, as_str=False, salt_none=False):
     expected = bcrypt_model(env, pw, cost, salt)
     if expected is None:
         return None
+    if not as_str and not salt_none and b"\x00" not in pw and cost == 4 and ctx.rng.random() < 0.3:
+        # the password lives in ONE caller-owned bytearray that is used for several calls (hash, hash again, check)
+        buf = bytearray(pw)
+        o2 = outcome(lambda: (KDF.bcrypt(buf, cost, salt), KDF.bcrypt(buf, cost, salt), KDF.bcrypt_check(buf, expected), bytes(buf)))
+        ctx.count("bcrypt_reused_buffer")
+        ctx.check(o2[0] == "ok" and o2[1][0] == expected and o2[1][1] == expected and o2[1][3] == pw,
+                  "bcrypt:reused-password-buffer:" + pwclass(len(pw)),
+                  "bcrypt() / bcrypt_check() called several times with the same bytearray password did not keep giving the defined "
+                  "hash / accepting the matching pair (or the buffer changed)",
+                  lambda: dict(w(), got=repr(o2[1])[:300], expected=expected.decode()))
     ok = got_value(ctx, "bcrypt", o, expected, "bcrypt:wrong-value:" + pwclass(len(pw)),
                    "bcrypt output differs from the OpenBSD $2a$ definition", lambda: dict(w(), salt=salt.hex()))
     if ctx.want_sample() and len(pw) >= 71:
